@@ -93,6 +93,13 @@ def prep_strkeys(t):
     return [list(t[0])] + [[str(r[0])] + list(r[1:]) for r in t[1:]]
 
 
+def _mem(writer, table, **kw):
+    import petl as etl
+    m = etl.MemorySource()
+    writer([tuple(r) for r in table], m, **kw)
+    return etl.MemorySource(m.getvalue())
+
+
 class LazyRows(object):
     """A table made of a header and a lazily produced sequence of rows (for accessors that return row iterables)."""
     def __init__(self, header, rows):
@@ -288,6 +295,14 @@ def entries():
     add('clock', 1, lambda s: etl.clock(s[0]), S)
     add('data', 1, lambda s: LazyRows(['k', 'a', 'v'], lambda: (list(r) for r in etl.data(s[0]))), S)
     add('valuecounts', 1, lambda s: etl.valuecounts(s[0], 'k'), 'sorted')
+    # extractors reading what the table serialises to (one MemorySource shared by all iterators of the view)
+    add('frompickle:mem', 1, lambda s: etl.frompickle(_mem(etl.topickle, s[0])), 'sorted')
+    add('fromcsv:mem', 1, lambda s: etl.fromcsv(_mem(etl.tocsv, s[0], encoding='utf-8'), encoding='utf-8'), 'sorted')
+    add('fromtext:mem', 1, lambda s: etl.fromtext(_mem(etl.tocsv, s[0], encoding='utf-8'), encoding='utf-8'), 'sorted')
+    add('fromjson:mem', 1, lambda s: etl.fromjson(_mem(etl.tojson, etl.cut(s[0], 'k', 'a', 'v'), lines=True), lines=True,
+                                                  header=['k', 'a', 'v']), 'sorted')
+    # a membership test against a lazy view over another table: building the selection must not read that table
+    add('selectin:view', 2, lambda s: etl.selectin(s[0], 'v', etl.values(s[1], 'v')), 'drop')
     add('typecounts', 1, lambda s: etl.typecounts(s[0], 'k'), 'sorted')
     add('parsecounts', 1, lambda s: etl.parsecounts(s[0], 'a'), 'sorted')
     add('stringpatterns', 1, lambda s: etl.stringpatterns(s[0], 'a'), 'sorted')
